@@ -132,7 +132,12 @@ static Verdict exec_C10(const Case &c) {
   r.labels = v2.labels;
   r.outhash = v2.outhash;
   if (!v1.ok) {
-    // wrong already in a fresh state: not a statement about histories (the owning property reports it)
+    // the padding clause of the property holds for every operation in every state
+    if (v1.msg.find("non-zero padding") != std::string::npos) {
+      r.fail("in a fresh state: " + v1.msg);
+      return r;
+    }
+    // otherwise wrong already in a fresh state: not a statement about histories (the owning property reports it)
     r.label("fails-in-fresh-state(other-property)");
     return r;
   }
@@ -149,6 +154,26 @@ static Verdict exec_C10(const Case &c) {
   return r;
 }
 
+// deterministic sweep serving the padding clause: every row/column count residue through the transposition kernels
+// (fresh and junk destination, heap pattern active)
+static std::vector<Case> enum_C10(const GenCtx &ctx) {
+  std::vector<Case> v;
+  int lim = ctx.tier ? 200 : 140;
+  for (int a = 1; a <= lim; a++)
+    for (int b : {1, 2, 63, 64, 65, 127, 128, 129, 200}) {
+      for (int orient = 0; orient < 2; orient++) {
+        Case c;
+        int m = orient ? b : a, n = orient ? a : b;
+        c.sets("prop", "C10").sets("op", "mzd_transpose").set("m", m).set("n", n).sets("A.pat", "dense").setu("A.seed", 77 + a * 13 + b);
+        c.sets("D.dst", (a + b) % 2 ? "given" : "null");
+        if ((a + b) % 2) c.set("D.jkind", 1).setu("D.jseed", 5);
+        c.set("twice", 0).sets("H.hist", "-").set("H.fill", 0xA5);
+        v.push_back(c);
+      }
+    }
+  return v;
+}
+
 static RegisterProp p_C10({"C10",
                            "random: (final operation from the catalogue with owned operands and junk destinations) x (history of 0..40 "
                            "throw-away calls - dirty blocks of exactly the shapes of the final operation left in the block cache, "
@@ -157,5 +182,7 @@ static RegisterProp p_C10({"C10",
                            "oracle + identical output digest in a fresh state and after the history + zero padding of every owned "
                            "operand and result; non-trivial iff the operation's own rule holds and (a recycled block was served to it - "
                            "observed as fewer allocator requests than in the fresh state - or a non-zero heap pattern was active); "
-                           "distinct by recipe hash",
-                           gen_C10, exec_C10, nullptr});
+                           "distinct by recipe hash. enumerated: transposition of every shape a x b and b x a with a in 1..140 (200 thorough), b in "
+                           "{1,2,63,64,65,127,128,129,200}, alternating fresh / junk destination, heap pattern 0xA5 (padding clause on every "
+                           "row/column residue of the transpose kernels)",
+                           gen_C10, exec_C10, enum_C10});
